@@ -159,11 +159,40 @@ def c18(run):
                       )
 
 
+def c19(run):
+    # design model: lock discipline and linearizability, exhaustively within small constants
+    run.model("MCRegistry.tla", "MCRegistry_lin.cfg", note="2 goroutines x 2 calls, 2 names, 3 services: Linearizable with the history in the state")
+    run.model("MCRegistry.tla", "MCRegistry_locks.cfg", note="3 goroutines x 2 calls: MutualExclusion, NoRace, RightName, OneWinner, WinnerSticks (VIEW hides the history)")
+    # sensitivity: each named deviation must violate its invariant
+    run.model("MCRegistry.tla", "MCRegistry_dev_split.cfg", expect="OneWinner")
+    run.model("MCRegistry.tla", "MCRegistry_dev_split_lin.cfg", expect="Linearizable")
+    run.model("MCRegistry.tla", "MCRegistry_dev_getnolock.cfg", expect="NoRace")
+    run.model("MCRegistry.tla", "MCRegistry_dev_readlock.cfg", expect="NoRace")
+    # A: TLC's schedules forced on real goroutines through the gate hook
+    run.sched_replay("RegistrySched_3x1.cfg", sample=Q(run, 3000, None), note="3 goroutines x 1 call")
+    if run.tier == "thorough":
+        run.sched_replay("RegistrySched_2x2.cfg", sample=40000, note="2 goroutines x 2 calls")
+    # B: hook-free stress under the race detector, linearizability decided by TLC
+    run.lin_stress(Q(run, 300, 2000), 4, 4)
+    run.lin_stress(Q(run, 100, 600), 8, 3, names=3, seed_off=1)
+    if run.tier == "thorough":
+        run.lin_stress(300, 12, 3, names=4, seed_off=2)
+    run.assumptions += ["interleavings on the real code are exhaustive only for the gated schedules TLC generates; the stress part is probabilistic",
+                        "the race detector and the Go memory model are trusted as sensors",
+                        "a schedule in which the model lets a goroutine in but the real lock does not (stricter locking) is inconclusive, not a violation"]
+    return run.finish("design model: ChecksumRegistry.tla at lock granularity (Call/Acquire/Finish), exhaustive for the stated constants, plus four deviation "
+                      "configurations that must fail. A: every behaviour of the deterministic restriction RegistrySched (eager acquisition, at most one blocked "
+                      "goroutine) is forced on real goroutines through the ':locked' hook of the verif build; blocked goroutines must not enter their critical "
+                      "section and every call must return the model's result. B: hook-free stress (4-12 goroutines) built with -race; every history is "
+                      "checked for linearizability by TLC (TraceRegistry.tla, internal linearization step). distinct_nontrivial = distinct schedules forced "
+                      "+ recorded histories in which calls really overlapped.")
+
+
 def all_types():
     return sorted(json.load(open(SCHEMA))["types"].keys())
 
 
-CHECKS = {"C03": c03, "C09": c09, "C10": c10, "C13": c13, "C14": c14, "C18": c18, "C01": c01, "C02": c02, "C04": c04, "C05": c05, "C06": c06, "C07": c07, "C08": c08, "C11": c11, "C12": c12,
+CHECKS = {"C19": c19, "C03": c03, "C09": c09, "C10": c10, "C13": c13, "C14": c14, "C18": c18, "C01": c01, "C02": c02, "C04": c04, "C05": c05, "C06": c06, "C07": c07, "C08": c08, "C11": c11, "C12": c12,
           "C15": c15, "C16": c16, "C17": c17}
 
 
@@ -185,5 +214,47 @@ def replay(run, path):
             log("VIOLATION property=%s replay=%s" % (rp["property"], path))
             return 1
         log("replay %s: accepted by the specification on the current tree" % path)
+        return 0
+    if rp.get("kind") == "schedule":
+        vd = run.build()
+        inp = os.path.join(run.scratch, "one-sched.ndjson")
+        open(inp, "w").write(json.dumps(rp["schedule"]) + "\n")
+        bad = 0
+        for attempt in range(3):
+            p = subprocess.run([vd, "conc", "sched", "-in", inp, "-out", inp + ".res"], capture_output=True, text=True)
+            if p.returncode != 0:
+                raise Broken("conc sched failed: " + p.stderr[-1500:])
+            r = json.loads(open(inp + ".res").read())
+            log("  forced schedule, attempt %d: %s %s" % (attempt + 1, r["verdict"], r["why"]))
+            bad += r["verdict"] == "violation"
+        if bad:
+            log("VIOLATION property=%s replay=%s" % (rp["property"], path))
+            return 1
+        return 0
+    if rp.get("kind") == "lin-history":
+        tp = os.path.join(run.scratch, "one-history.ndjson")
+        open(tp, "w").write("\n".join(json.dumps(e) for e in rp["events"]) + "\n")
+        from vcheck import run_tlc, tlc_prints
+        r = run_tlc("TraceRegistry.tla", "TraceRegistry.cfg", run.scratch, env={"VERIF_TRACE": tp}, workers=1)
+        hw = tlc_prints(r["out"], "HIGHWATER")
+        reached, total = [int(x) for x in hw[-1].split(",")]
+        if reached != total + 1:
+            log("  the recorded history has no linearization: TLC is stuck at event %d of %d" % (reached, total))
+            log("VIOLATION property=%s replay=%s" % (rp["property"], path))
+            return 1
+        log("  the recorded history is linearizable")
+        return 0
+    if rp.get("kind") == "race":
+        vd = run.build(race=True)
+        cmd = [vd] + rp["cmd"].split()
+        for i, a in enumerate(cmd):
+            if a == "-out":
+                cmd[i + 1] = os.path.join(run.scratch, "rerun.ndjson")
+        p = subprocess.run(cmd, capture_output=True, text=True, env=dict(os.environ, GORACE="halt_on_error=0 exitcode=66", VERIF_SCHEMA=SCHEMA))
+        if "DATA RACE" in p.stderr or p.returncode == 66:
+            log(p.stderr[:1500])
+            log("VIOLATION property=%s replay=%s" % (rp["property"], path))
+            return 1
+        log("  no data race reported on the current tree")
         return 0
     raise Broken("unknown replay kind %r" % rp.get("kind"))
